@@ -116,6 +116,18 @@ def rule_g2(repo):
                     'a new lookup entry is also entered in a use list' if ok else
                     'an equation is entered in lookup but in no use list: it is found as a congruence partner once, but not re-examined when its '
                     'arguments\' classes are merged later', '%s:%d' % (CONGC, n.lineno))
+    # merge: the equation that is entered is made pending or registered in lookup, on every path
+    from ..inline import inlined
+    mg = inlined(repo.func(CONGC, 'CongClosure.merge'), lambda h: h.cls is cls and h.name not in ('merge', '_propagate', 'add_var', '_add_edge_proof_forest', '_path_to_root'))[0]
+    mcfg = cfg_of(mg.node)
+    kept = [n for n in mcfg.nodes if n.kind == 'stmt' and (
+        any((path_of(c.func.value) or '').endswith('pending') for c in _calls(n.ast, 'put')) or
+        (isinstance(n.ast, ast.Assign) and any(isinstance(t, ast.Subscript) and path_of(t.value) == 'self.lookup' for t in n.ast.targets)))]
+    lost = mcfg.path_avoiding(mcfg.exit, skip_nodes=kept)
+    res.add('%s :: CongClosure.merge :: entered-equation-kept' % CONGC, bool(kept) and lost is None,
+            'every path through merge puts the equation on pending or enters it in lookup' if kept and lost is None else
+            'merge can return (through line %s) without making the equation pending or entering it in lookup: f(a, b) = d entered after f(a, b) = c is '
+            'dropped and c = d is not derived' % [n.lineno for n in (lost or []) if n.kind in ('test', 'return', 'stmt')][-2:], mg.loc)
     # merge: both arguments' use lists
     g = repo.func(CONGC, 'CongClosure.merge')
     apps = [c for h in with_helpers('merge') for c in _calls(h.node, 'append') if 'use_list' in src(c.func.value)]
